@@ -153,9 +153,20 @@ SIG_WHERE = "stranded-extraction:raises:total-length<=interval-count"
 # ----------------------------------------------------------------------------------------------------------------
 # contract 1: reverse complement
 
-def check_rc(col, strings, enc_name, container):
+def rows_mixed_up(got, expected):
+    """same row lengths and the same symbols overall, but some row holds symbols that belong to another row"""
+    return ([len(g) for g in got] == [len(e) for e in expected]
+            and sorted("".join(got)) == sorted("".join(expected))
+            and any(sorted(g) != sorted(e) for g, e in zip(got, expected)))
+
+
+def check_rc(col, strings, enc_name, container, tag=None):
+    """tag: None for the original scope; a scope name for the cases added later (their wrong-result failures get
+    signatures of their own, `reverse_complement:<tag>:...`)"""
     from bionumpy.sequence import get_reverse_complement
     case = {"kind": "rc", "strings": list(strings), "enc": enc_name, "container": container}
+    if tag:
+        case["tag"] = tag
     ctype = "ascii" if container in ("entry", "pystr", "pylist") else enc_name
     col.case(case, nontrivial=any(strings), contract="reverse_complement")
     sig = "reverse_complement:%s:%s" % (ctype, container)
@@ -177,6 +188,10 @@ def check_rc(col, strings, enc_name, container):
     kind = mismatch_kind(ctype, got, expected)
     if kind == "lower":
         col.fail(SIG_LOWER, case, "got %r expected %r" % (got, expected))
+    elif kind == "other" and tag:
+        what = "symbols-moved-between-rows" if rows_mixed_up(got, expected) else "wrong-sequence"
+        col.fail("reverse_complement:%s:%s:%s:%s" % (tag, what, ctype, container), case,
+                 "got %r expected %r" % (got, expected))
     elif kind == "other":
         col.fail("reverse_complement:wrong-sequence:%s:%s" % (ctype, container), case,
                  "got %r expected %r" % (got, expected))
@@ -189,6 +204,9 @@ def check_rc(col, strings, enc_name, container):
     kind = mismatch_kind(ctype, rr, in_rows)
     if kind == "lower":
         col.fail(SIG_LOWER, case, "rc(rc(x)) = %r, x = %r" % (rr, in_rows))
+    elif kind == "other" and tag:
+        col.fail("reverse_complement:%s:twice-not-identity:%s:%s" % (tag, ctype, container), case,
+                 "rc(rc(x)) = %r, x = %r" % (rr, in_rows))
     elif kind == "other":
         col.fail("reverse_complement:twice-not-identity:%s:%s" % (ctype, container), case,
                  "rc(rc(x)) = %r, x = %r" % (rr, in_rows))
@@ -270,6 +288,36 @@ def enum_rc(col, tier):
         check_rc(col, rows, enc_name, "ragged")
         if i % 200 == 0 and col.out_of_time():
             return
+    enum_rc_many_rows(col, tier, R, M)
+
+
+MANY_ROWS_TAG = "rows<=5"
+
+
+def enum_rc_many_rows(col, tier, R, M):
+    """(e) ragged arrays with more rows than (c): EVERY row-length vector with <= 5 rows of length 0..4 (which contains
+    every vector whose first and last row have the mean length while the rows are not equally long, every vector
+    with equal rows, with empty rows at either end ...).  Vectors already evaluated in (c) (<= R rows, lengths <= M,
+    same filling) are not repeated."""
+    quick = tier == "quick"
+    full = ["ascii"] if quick else ["ascii", "acgtn", "acgt"]
+    scope = {e: ((5, 4) if e in full else ((4, 3) if quick else (5, 3))) for e in ENC_SYMBOLS}
+    if quick:
+        del scope["actg"], scope["actgn"]
+    col.bounds["rc.many_rows"] = ("every row-length vector with <= rows x max length %r (per encoding), ragged container, "
+                                  "filling (0, 1); equal-length vectors also as 2-D matrix" % (scope,))
+    for enc_name, (rows_max, len_max) in scope.items():
+        symbols = ENC_SYMBOLS[enc_name]
+        for n in range(1, rows_max + 1):
+            for lengths in itertools.product(range(len_max + 1), repeat=n):
+                if n <= R and max(lengths) <= M:
+                    continue
+                rows = fill(lengths, symbols, 0, 1)
+                check_rc(col, rows, enc_name, "ragged", MANY_ROWS_TAG)
+                if len(set(lengths)) == 1:
+                    check_rc(col, rows, enc_name, "matrix", MANY_ROWS_TAG)
+            if col.out_of_time():
+                return
 
 
 # ----------------------------------------------------------------------------------------------------------------
@@ -321,12 +369,14 @@ def run_stranded(col, fn, sig, case, ivs):
         return None
 
 
-def check_strand_specific(col, seq, enc_name, ivs):
+def check_strand_specific(col, seq, enc_name, ivs, tag=None):
     import bionumpy as bnp
     from bionumpy.sequence import get_strand_specific_sequences
     case = {"kind": "strand_specific", "seq": seq, "enc": enc_name, "intervals": [list(iv) for iv in ivs]}
+    if tag:
+        case["tag"] = tag
     col.case(case, nontrivial=any(iv[1] > iv[0] for iv in ivs), contract="strand_specific")
-    sig = "strand_specific:" + enc_name
+    sig = "strand_specific:" + (tag + ":" if tag else "") + enc_name
     arr = col.guarded(lambda: bnp.as_encoded_array(seq, get_encoding(enc_name)), "build-input:" + enc_name, case)
     bed = col.guarded(lambda: make_bed6(ivs), "build-intervals", case)
     if arr is None or bed is None:
@@ -382,6 +432,32 @@ def enum_strand_specific(col, tier):
         check_strand_specific(col, s, enc_name, ivs)
         if i % 100 == 0 and col.out_of_time():
             return
+    enum_strand_specific_length_vectors(col, tier, seqs)
+
+
+def enum_strand_specific_length_vectors(col, tier, seqs):
+    """lists of 4 (thorough: also 5) intervals with EVERY vector of interval lengths 0..3 on one sequence per
+    encoding, under several strand patterns (all '-', alternating, '-' at the ends / in the middle, one '-'):
+    the extracted rows are a ragged array whose row lengths are the interval lengths, so every row-length shape
+    of the reverse complemented block is met through the strand-aware entry point too.  Starts are spread over
+    the sequence (interval i starts at 2 i, overlaps with its neighbour when longer than 2)."""
+    quick = tier == "quick"
+    long_seqs = {"ascii": "AcGTnNCgtaCAg", "acgt": "ACGTTGCAgatcA", "acgtn": "ACNGTnCaTGGAt", "actg": "CATGGTCAacgtT",
+                 "actgn": "TNGAcCAtnGGCA"}
+    patterns = {4: ["----", "-+-+", "+--+", "-++-", "+-++"], 5: ["-----", "-+-+-", "+---+", "--+--"]}
+    col.bounds["strand_specific.length_vectors"] = (
+        "every interval-length vector in {0..3}^4%s on the 13-symbol sequences %r, strand patterns %r; quick: the "
+        "encoding rotates with the vector, thorough: every encoding" % ("" if quick else " and {0..3}^5", long_seqs, patterns))
+    encs = list(long_seqs)
+    for n in ((4,) if quick else (4, 5)):
+        for k, lengths in enumerate(itertools.product(range(4), repeat=n)):
+            for j, pattern in enumerate(patterns[n]):
+                for enc_name in ([encs[(k + j) % len(encs)]] if quick else encs):
+                    s = long_seqs[enc_name]
+                    ivs = [(2 * i, 2 * i + L, pattern[i]) for i, L in enumerate(lengths)]
+                    check_strand_specific(col, s, enc_name, ivs, "length-vectors")
+            if k % 64 == 0 and col.out_of_time():
+                return
 
 
 # ----------------------------------------------------------------------------------------------------------------
@@ -496,6 +572,261 @@ def enum_genomic(col, tier, tmp):
 
 
 # ----------------------------------------------------------------------------------------------------------------
+# contract 3b: file-backed GenomicSequence whose genome-context contig order differs from the FASTA record order
+
+ORDER_PATHS = ["getitem:stranded", "getitem:unstranded", "getitem:from_fields:stranded", "extract_intervals:bed6:stranded"]
+
+
+def write_fasta_records(path, records, widths):
+    """one line width per record (a .fai index has a line geometry per record)"""
+    with open(path, "w") as f:
+        for (name, seq), width in zip(records, widths):
+            f.write(">%s\n" % name)
+            for i in range(0, len(seq), width):
+                f.write(seq[i:i + width] + "\n")
+
+
+class OrderedGenome:
+    """A FASTA file (records in FILE order) opened through a Genome whose contig order comes from somewhere else.
+    spec (json): records [[name, seq]...] in file order, widths [line width per record], open:
+      'fasta'  Genome.from_file(fasta, sort_names=spec.sort_names, filter_function=default | keep_all).read_sequence()
+      'sizes'  Genome.from_file(chrom.sizes listing spec.order, ...).read_sequence(fasta)
+      'dict'   Genome.from_dict({name: length for name in spec.order}).read_sequence(fasta)
+    The oracle only uses spec.records: whatever the order of the genome, an interval on contig X is a slice of the
+    record named X of the file."""
+
+    def __init__(self, tmp, spec, tag):
+        import bionumpy as bnp
+        from bionumpy.genomic_data.genome_context import keep_all
+        self.spec = spec
+        records = [tuple(r) for r in spec["records"]]
+        self.seqs = dict(records)
+        self.fa = os.path.join(tmp, "o_%s.fa" % tag)
+        write_fasta_records(self.fa, records, spec["widths"])
+        kwargs = {"sort_names": bool(spec.get("sort_names"))}
+        if spec.get("filter") == "keep_all":
+            kwargs["filter_function"] = keep_all
+        if spec["open"] == "fasta":
+            self.genome = bnp.Genome.from_file(self.fa, **kwargs)
+            self.gs = self.genome.read_sequence()
+        elif spec["open"] == "sizes":
+            sizes = os.path.join(tmp, "o_%s.chrom.sizes" % tag)
+            with open(sizes, "w") as f:
+                for name in spec["order"]:
+                    f.write("%s\t%d\n" % (name, len(self.seqs[name])))
+            self.genome = bnp.Genome.from_file(sizes, **kwargs)
+            self.gs = self.genome.read_sequence(self.fa)
+        elif spec["open"] == "dict":
+            self.genome = bnp.Genome.from_dict({name: len(self.seqs[name]) for name in spec["order"]})
+            self.gs = self.genome.read_sequence(self.fa)
+        else:
+            raise ValueError(spec["open"])
+
+    def close(self):
+        try:
+            self.gs._fasta._f_obj.close()
+        except Exception:
+            pass
+
+    def call(self, path, ivs):
+        from bionumpy.genomic_data import GenomicIntervals
+        bed = make_bed6(ivs)
+        if path == "getitem:stranded":
+            return self.gs[self.genome.get_intervals(bed, stranded=True)]
+        if path == "getitem:unstranded":
+            return self.gs[self.genome.get_intervals(bed, stranded=False)]
+        if path == "getitem:from_fields:stranded":
+            gi = GenomicIntervals.from_fields(self.gs.genome_context, [iv[3] for iv in ivs], [iv[0] for iv in ivs],
+                                              [iv[1] for iv in ivs], [iv[2] for iv in ivs])
+            return self.gs[gi]
+        if path == "extract_intervals:bed6:stranded":
+            return self.gs.extract_intervals(bed, stranded=True)
+        raise ValueError(path)
+
+
+def check_genomic_order(col, g, path, ivs):
+    spec = g.spec
+    case = {"kind": "genomic_order", "spec": spec, "path": path, "intervals": [list(iv) for iv in ivs]}
+    col.case(case, nontrivial=any(iv[1] > iv[0] for iv in ivs), contract="genomic_sequence")
+    stranded = not path.endswith("unstranded")
+    sig = "genomic_sequence:contig-order:%s:%s" % (spec["scenario"], path)
+    if stranded:
+        got = run_stranded(col, lambda: g.call(path, ivs), sig, case, ivs)
+    else:
+        got = col.guarded(lambda: rows_of(g.call(path, ivs)), sig, case)
+    if got is None:
+        return
+    expected = stranded_expected(lambda iv: g.seqs[iv[3]], ivs, "acgtn", stranded)
+    report_stranded(col, sig, "acgtn", case, ivs, got, expected)
+
+
+def contig_sequence(k, length):
+    """contig number k: at every position the contigs 0..4 of one file carry five different symbols (so the slice of
+    a wrong contig never equals the right one), both cases and N included"""
+    out = []
+    for i in range(length):
+        c = "ACGTN"[(2 * i + k) % 5]
+        out.append(c.lower() if (i + k) % 3 == 1 else c)
+    return "".join(out)
+
+
+def width_variants(n_records, which):
+    """line widths per record: 'narrow' = 2 everywhere (every contig spans several lines), 'wide' = 60 (one line per
+    record), 'mixed' = 3, 2, 60, 4, 2 ... per record (the line geometry differs between the records)"""
+    if which == "narrow":
+        return [2] * n_records
+    if which == "wide":
+        return [60] * n_records
+    return [(3, 2, 60, 4, 2)[i % 5] for i in range(n_records)]
+
+
+def order_specs(tier):
+    """every genome whose contig order can differ from the file order, within the bounds"""
+    quick = tier == "quick"
+    variants = ["narrow", "wide", "mixed"]
+    specs = []
+
+    def add(scenario, names, lengths, how, k, **kw):
+        records = [[name, contig_sequence(i, lengths[name])] for i, name in enumerate(names)]
+        for which in ([variants[k % 3]] if quick else variants):
+            spec = {"scenario": scenario, "records": records, "widths": width_variants(len(records), which), "open": how}
+            spec.update(kw)
+            specs.append(spec)
+
+    # (1) underscore-named contigs (ignored by the default filter and moved behind the others in the genome context)
+    #     at every place among 2 and 3 regular chromosomes; the placements with all of them last are the controls.
+    #     quick: every placement of 1 among 2, every 3rd placement of 2 among 3, the first placement of the others
+    reg = ["chr1", "chr2", "chr3"]
+    und = ["chr1_gl000191_random", "chrUn_gl000211"]
+    lengths = {"chr1": 5, "chr2": 3, "chr3": 4, "chr1_gl000191_random": 6, "chrUn_gl000211": 2, "chr10": 4}
+    k = 0
+    for n_reg in (2, 3):
+        for n_und in (1, 2):
+            n = n_reg + n_und
+            for pi, places in enumerate(itertools.combinations(range(n), n_und)):
+                names, r, u = [], iter(reg[:n_reg]), iter(und[:n_und])
+                for i in range(n):
+                    names.append(next(u) if i in places else next(r))
+                k += 1
+                if quick and not ((n_reg, n_und) == (2, 1) or ((n_reg, n_und) == (3, 2) and pi % 3 == 0) or pi == 0):
+                    continue
+                add("underscore-contigs", names, lengths, "fasta", k)
+                if not quick or (n_reg, n_und, pi) == (3, 2, 0):
+                    add("underscore-contigs:keep_all", names, lengths, "fasta", k + 1, filter="keep_all")
+    # (2) sort_names=True on every file order of {chr1, chr10, chr2} (thorough: and of these plus an underscore contig)
+    names3 = ["chr1", "chr10", "chr2"]
+    for k, perm in enumerate(itertools.permutations(names3)):
+        add("sort_names", list(perm), lengths, "fasta", k, sort_names=True)
+    if not quick:
+        for k, perm in enumerate(itertools.permutations(names3 + [und[0]])):
+            add("sort_names", list(perm), lengths, "fasta", k, sort_names=True)
+    # (3) chrom.sizes file / dict in another order than the FASTA: every order of every subset of >= 2 contigs
+    #     against every file order (quick: one file order, every full order and every 2nd ordered pair for the
+    #     chrom.sizes file, two orders for the dict)
+    file_orders = list(itertools.permutations(reg))
+    if quick:
+        file_orders = [file_orders[4]]
+    k = 0
+    for forder in file_orders:
+        for m in (3, 2):
+            for oi, order in enumerate(itertools.permutations(reg, m)):
+                k += 1
+                if quick and m == 2 and oi % 2:
+                    continue
+                add("chrom.sizes", list(forder), lengths, "sizes", k, order=list(order))
+                if not quick or (m, oi) in ((3, 0), (2, 2)):
+                    add("from_dict", list(forder), lengths, "dict", k + 1, order=list(order))
+        if not quick:
+            for order in itertools.permutations(reg):
+                k += 1
+                add("chrom.sizes:sort_names", list(forder), lengths, "sizes", k, order=list(order), sort_names=True)
+    return specs
+
+
+def order_included(spec):
+    """contigs an interval may lie on: listed in the genome and not ignored by the filter"""
+    names = spec.get("order") or [r[0] for r in spec["records"]]
+    if spec.get("filter") == "keep_all" or spec["open"] == "dict":
+        return list(names)
+    return [n for n in names if "_" not in n]
+
+
+def order_interval_lists(spec, quick):
+    """(path, intervals) to evaluate for one genome.  Interval lists are long here (one call extracts many intervals):
+    the shapes of short lists are the subject of enum_genomic, this part is about WHICH record an interval is cut from"""
+    seqs = {name: seq for name, seq in spec["records"]}
+    inc = order_included(spec)
+    out = []
+    # (A) every interval x strand of one contig in one call (quick: the two paths that take genome-encoded intervals
+    #     with strands; the Bed6 path walks the intervals one by one in Python and gets a shorter list below)
+    per_contig = {name: [(a, b, strand, name) for (a, b, strand) in all_intervals(len(seqs[name]))] for name in inc}
+    fast_paths = [p for p in ORDER_PATHS if not p.startswith("extract_intervals")]
+    for name in inc:
+        for path in (("getitem:stranded", "getitem:from_fields:stranded") if quick else ORDER_PATHS):
+            out.append((path, per_contig[name]))
+    # (B) every interval x strand of every contig in one call, contigs interleaved (round robin), forwards and backwards
+    mixed = [iv for group in itertools.zip_longest(*[per_contig[name] for name in inc]) for iv in group if iv is not None]
+    for path in (fast_paths if quick else ORDER_PATHS):
+        out.append((path, mixed))
+        if not quick or path == "getitem:stranded":
+            out.append((path, mixed[::-1]))
+    if quick:
+        ends = [(a, b, strand, name) for name in inc for (a, b, strand) in
+                ((0, len(seqs[name]), "-"), (1, len(seqs[name]), "+"), (0, len(seqs[name]) - 1, "-"))]
+        out.append(("extract_intervals:bed6:stranded", ends[::2] + ends[1::2]))
+    # (C) one interval per contig in every order of the contigs (quick: the cyclic rotations) x strand assignments
+    #     (quick: exactly one '-' or all '-')
+    perms = list(itertools.permutations(inc))
+    if len(perms) > 6:
+        perms = perms[::len(perms) // 6]
+    if quick:
+        perms = [tuple(inc[i:] + inc[:i]) for i in range(len(inc))]
+    for perm in perms:
+        for strands in itertools.product("+-", repeat=len(perm)):
+            if quick and strands.count("-") not in (1, len(perm)):
+                continue
+            ivs = [(min(1, len(seqs[name]) - 1), len(seqs[name]), strand, name) for name, strand in zip(perm, strands)]
+            out.append(("getitem:stranded", ivs))
+    return out
+
+
+def enum_genomic_order(col, tier, tmp):
+    import random
+    quick = tier == "quick"
+    specs = order_specs(tier)
+    col.bounds["genomic_sequence.contig_order"] = (
+        "%d file-backed genomes (Genome.from_file(fasta / chrom.sizes).read_sequence(), Genome.from_dict): underscore contigs "
+        "at every place among 2..3 chromosomes (default filter and keep_all), sort_names=True on every file order of 3 names%s, "
+        "chrom.sizes / dict listing every ordered subset of >= 2 of 3 contigs against %s file orders; contig lengths 2..6, "
+        "line widths narrow(2) / wide(60) / mixed per record%s; paths %s; per call: every interval x strand of one contig, "
+        "of all contigs interleaved (both directions), one interval per contig in every contig order x strand assignment, "
+        "seeded lists of 3..5 non-empty intervals"
+        % (len(specs), "" if quick else " (and of 4 with an underscore contig)", "2" if quick else "all 6",
+           " (quick: one variant per genome, rotating)" if quick else "", ORDER_PATHS))
+    rng = random.Random("c14-contig-order-%d" % col.seed)
+    for gi, spec in enumerate(specs):
+        g = col.guarded(lambda: OrderedGenome(tmp, spec, str(gi)), "genomic_sequence:contig-order:%s:open" % spec["scenario"],
+                        {"kind": "genomic_order-open", "spec": spec})
+        if g is None:
+            continue
+        try:
+            for path, ivs in order_interval_lists(spec, quick):
+                check_genomic_order(col, g, path, ivs)
+            inc = order_included(spec)
+            for i in range(4 if quick else 40):
+                ivs = []
+                for _ in range(rng.randint(3, 5)):
+                    name = rng.choice(inc)
+                    a = rng.randint(0, len(g.seqs[name]) - 1)
+                    ivs.append((a, rng.randint(a + 1, len(g.seqs[name])), rng.choice("+-"), name))
+                check_genomic_order(col, g, ORDER_PATHS[i % len(ORDER_PATHS)], ivs)
+        finally:
+            g.close()
+        if col.out_of_time():
+            return
+
+
+# ----------------------------------------------------------------------------------------------------------------
 # contract 4: translation
 
 def check_translate(col, rows, container, label):
@@ -583,6 +914,9 @@ def run(tier="quick", seed=0):
     if not col.out_of_time():
         with TmpDir() as tmp:
             enum_genomic(col, tier, tmp)
+        if not col.out_of_time():
+            with TmpDir() as tmp:
+                enum_genomic_order(col, tier, tmp)
     if not col.out_of_time():
         enum_rc(col, tier)
     return col.result()
@@ -592,9 +926,9 @@ def replay(case):
     col = Collector("C14", "quick", 0, "replay")
     kind = case["kind"]
     if kind == "rc":
-        check_rc(col, case["strings"], case["enc"], case["container"])
+        check_rc(col, case["strings"], case["enc"], case["container"], case.get("tag"))
     elif kind == "strand_specific":
-        check_strand_specific(col, case["seq"], case["enc"], [tuple(iv) for iv in case["intervals"]])
+        check_strand_specific(col, case["seq"], case["enc"], [tuple(iv) for iv in case["intervals"]], case.get("tag"))
     elif kind == "translate":
         check_translate(col, case["rows"], case["container"], case["label"])
     elif kind in ("genomic", "genomic-open"):
@@ -605,6 +939,14 @@ def replay(case):
                     check_genomic(col, b, case["path"], [tuple(iv) for iv in case["intervals"]])
             finally:
                 b.close()
+    elif kind in ("genomic_order", "genomic_order-open"):
+        with TmpDir() as tmp:
+            g = OrderedGenome(tmp, case["spec"], "replay")
+            try:
+                if kind == "genomic_order":
+                    check_genomic_order(col, g, case["path"], [tuple(iv) for iv in case["intervals"]])
+            finally:
+                g.close()
     else:
         return False, "unknown case kind %r" % (kind,)
     if col.failures:
